@@ -378,7 +378,8 @@ def run_graph_part(ctx):
         nontrivial = len(sim.workers) >= 2 and len(sim.registrations) >= 2
         ctx.case(case, nontrivial, ["C:graph-registers", "C:" + case["scenario_name"]],
                  sample={"case": case, "registrations": len(sim.registrations)})
-        e1.oracle_registers(sim, case)
+        for violation in e1.oracle_registers(sim, case):
+            raise violation
 
     ctx.hyp(e1.cases(mine, {"dry_run": False, "pool_filter": False, "scopes": False}), body,
             ctx.budget(48, 3200), name="graph-registers", shrink=False)
@@ -396,11 +397,7 @@ def replay(ctx, case):
 
         simmod.setup()
         sim = e1.run_case(case, ctx.scratch)
-        try:
-            e1.oracle_registers(sim, case)
-        except Violation as violation:
-            return [violation]
-        return []
+        return list(e1.oracle_registers(sim, case))
     impl = load()
     if "steps" in case:
         machine_cls = make_machine(impl, ctx)
